@@ -18,6 +18,11 @@
 (*      response and fail                                                   *)
 (*  Code_ConfigureWaitsForever : CONFIGURE with no active task sends        *)
 (*      nothing and then waits for an answer                                *)
+(*  Code_DeployNeedsAllActive : DEPLOY waits for the workflow status        *)
+(*      ACTIVE, which needs every task - critical or not - to be running    *)
+(* For DEPLOY the per-task "command" is the launch and the "reply" is the   *)
+(* task being reported running in time: outcome ok = running, err_src /     *)
+(* silent = never reported running, err_error = the launch fails.           *)
 (***************************************************************************)
 EXTENDS Naturals, FiniteSets, Sequences, TLC
 
@@ -25,14 +30,15 @@ CONSTANTS Tasks,
           Outcomes,   \* subset of {"ok", "err_src", "err_error", "unsendable", "silent", "dies"}
           Code_SingleRespIgnoresCritical,
           Code_ZeroTargetsIsError,
-          Code_ConfigureWaitsForever
+          Code_ConfigureWaitsForever,
+          Code_DeployNeedsAllActive
 
-Events == {"CONFIGURE", "START", "STOP", "RESET"}
+Events == {"DEPLOY", "CONFIGURE", "START", "STOP", "RESET"}
 \* "unsendable" (the MESSAGE call itself fails) severs the scheduler's subscription in the pinned
 \* mesos-go client and so collapses into the reconnection behaviour of C18; "silent"/"dies" cost the
 \* code's real 90/120 s timeouts and are replayed only in the thorough tier.
-Src(e) == CASE e = "CONFIGURE" -> "DEPLOYED" [] e = "START" -> "CONFIGURED" [] e = "STOP" -> "RUNNING" [] OTHER -> "CONFIGURED"
-Dst(e) == CASE e = "CONFIGURE" -> "CONFIGURED" [] e = "START" -> "RUNNING" [] e = "STOP" -> "CONFIGURED" [] OTHER -> "DEPLOYED"
+Src(e) == CASE e = "DEPLOY" -> "STANDBY" [] e = "CONFIGURE" -> "DEPLOYED" [] e = "START" -> "CONFIGURED" [] e = "STOP" -> "RUNNING" [] OTHER -> "CONFIGURED"
+Dst(e) == CASE e = "DEPLOY" -> "DEPLOYED" [] e = "CONFIGURE" -> "CONFIGURED" [] e = "START" -> "RUNNING" [] e = "STOP" -> "CONFIGURED" [] OTHER -> "DEPLOYED"
 
 VARIABLES
   crit,      \* [Tasks -> BOOLEAN]  critical trait of each task's role
@@ -63,7 +69,8 @@ Init ==
 Body ==
   /\ pc = "body"
   /\ IF present = {}
-       THEN IF event = "CONFIGURE"
+       THEN IF event = "DEPLOY" THEN pc' = "tail"
+            ELSE IF event = "CONFIGURE"
               THEN pc' = IF Code_ConfigureWaitsForever THEN "hung" ELSE "tail"
               ELSE pc' = "consolidate"     \* command with an empty target list
        ELSE pc' = "collect"
@@ -104,7 +111,8 @@ Failed(t) == tstate[t] \in {"replied_err", "senderr"}
 Classify ==
   /\ pc = "classify"
   /\ bodyErr' =
-       CASE resp = "nil" -> Code_ZeroTargetsIsError
+       CASE event = "DEPLOY" -> (\E t \in present : Failed(t) /\ (crit[t] \/ Code_DeployNeedsAllActive))
+         [] resp = "nil" -> Code_ZeroTargetsIsError
          [] resp = "single" ->
               (\E t \in present : Failed(t) /\ (crit[t] \/ Code_SingleRespIgnoresCritical))
          [] OTHER -> \E t \in present : Failed(t) /\ crit[t]
@@ -133,8 +141,9 @@ AllCritOk == \A t \in present : crit[t] => outcome[t] = "ok"
 
 \* deviations of the tree as recorded in known_findings.json
 KnownDeviation ==
-  \/ (Code_SingleRespIgnoresCritical /\ Cardinality(present) = 1 /\ \E t \in present : ~crit[t] /\ outcome[t] # "ok")
-  \/ (Code_ZeroTargetsIsError /\ present = {} /\ event # "CONFIGURE")
+  \/ (Code_SingleRespIgnoresCritical /\ event # "DEPLOY" /\ Cardinality(present) = 1 /\ \E t \in present : ~crit[t] /\ outcome[t] # "ok")
+  \/ (Code_DeployNeedsAllActive /\ event = "DEPLOY" /\ \E t \in present : ~crit[t] /\ outcome[t] # "ok")
+  \/ (Code_ZeroTargetsIsError /\ present = {} /\ event \notin {"CONFIGURE", "DEPLOY"})
   \/ (Code_ConfigureWaitsForever /\ present = {} /\ event = "CONFIGURE")
 
 \* the destination state is reported iff every critical task acknowledged the command
@@ -149,7 +158,9 @@ TypeOK == pc \in {"body", "collect", "consolidate", "classify", "tail", "followu
 
 \* the verdict the model predicts for a case (used by the trace specification)
 Verdict(pres, cr, ev, out) ==
-  IF pres = {} THEN
+  IF ev = "DEPLOY" THEN
+     (IF \E t \in pres : out[t] # "ok" /\ (cr[t] \/ Code_DeployNeedsAllActive) THEN "fail" ELSE "ok")
+  ELSE IF pres = {} THEN
      IF ev = "CONFIGURE" THEN (IF Code_ConfigureWaitsForever THEN "hung" ELSE "ok")
      ELSE (IF Code_ZeroTargetsIsError THEN "fail" ELSE "ok")
   ELSE IF Cardinality(pres) = 1 THEN
